@@ -3,32 +3,38 @@ import MindsVerif.Lemmas.RouteSem
 /-!
 # C11 — a query on one SQL integration is pushed down whole and unchanged in meaning
 
-* T11.3 `C11_decision` / `C11_decision_cte` / `C11_decision_sound`: `check_single_integration` sends the query to
+* T11.3 `C11_partial_decision` / `C11_decision_cte` / `C11_decision_sound`: `check_single_integration` sends the query to
   `i` (plan = exactly one fetch step for `i` holding the stripped query) whenever every item the walker visits is a
   table that `resolve_database_table` sends to the data integration `i` (SQL-capable, not files/views, no UDF, no
   native query) — since 0e75382 (`skip = true`) also bare CTE names, under any
   default namespace — and conversely, when it does, every visited item is such a table (or a CTE name).
 * T11.2 `C11_names`: an identifier target keeps its output column name (an alias is added exactly when
   the bare target would otherwise be the only carrier of the name; the cut never removes the last part).
-* T11.1 `C11_partial_resolution`: in the name-resolution semantics of `Model/Route.lean` every column
-  reference of the stripped query denotes, on the integration's own catalog, the same
-  (scope depth, table instance, table, column) as in the original on the federated catalog — for all
-  queries of the fragment (any nesting, any number of tables/columns, ANY aliases) satisfying `okSel db names`:
-  table references are `[db.]t` and a two-part column reference is qualified by the integration name only if the
-  cut leaves it alone (`db ∈ names`).  `names` = the aliases and CTE names of the query is the cut of the code since 1ea1207
-  (`names = []` was the cut before: `C11_regression_1`).  Still outside: an UNALIASED table whose own name is the
-  integration name (`C11_witness_1`; proposal fixes/C11_1.diff adds table names to `names`).
+* T11.1 `C11_resolution` (full strength, no hypothesis): in the name-resolution semantics of `Model/Route.lean`
+  (scopes innermost first, CTE bodies as scopes of their own, `c` / `q.c` / `db.q.c` references, ambiguity) every
+  column reference of the original query that denotes something denotes exactly the same (scope depth, table
+  instance, table, column) in the pushed-down query on the integration's own catalog — for the cut as the planner
+  performs it since 1ea1207 / bd15793 (`names` = alias or own name of every table reference).
+  `C11_resolution_exact`: equality of the whole result lists for every `names` under `okSel`;
+  `C11_exactness_needs_hypothesis`: why equality needs one.  `C11_regression_1` (alias = integration name, before
+  1ea1207), `C11_regression_3` (table called like the integration, before bd15793).
+  `C11_main`: the names and resolution clauses are proved in full; the decision clause is `C11_partial_decision`
+  (outside the class the planner deliberately does not push down since a9036e5, `C11_witness_2`).
 What is **not** proved here: evaluation of whole queries (M6); T11.1 is about name resolution, the
 only thing the rewrite touches.  The end-to-end statement is probed on sqlite3 by `tools/props/c11.py`.
 -/
 namespace MindsVerif.Props.C11
 open MindsVerif.Route
 
-/-- full statement, resolution clause, for the planner as it is (since 1ea1207 the cut is handed `names` = the
-lower-cased aliases and CTE names of the query): stripping never changes what a column reference denotes -/
+/-- full statement, resolution clause, for the planner as it is (the cut is handed `names` = for every table
+reference of the query its alias or, without one, its own name — 1ea1207, bd15793): every column reference of the
+original query that denotes something (or is ambiguous) under the federated catalog denotes exactly the same
+(scope depth, table instance, table, column) in the pushed-down query under the integration's own catalog —
+for ALL queries of the `Sel` shape (any nesting, CTE bodies as scopes of their own, any table references, any
+column references), no hypothesis.  Nothing is claimed for a reference that denotes nothing in the original. -/
 def C11_resolution_full : Prop :=
   ∀ (db : Name) (sch : Schema) (s : Sel),
-    resolveAll false db sch [] (stripSel db (aliasesOf s) s) = resolveAll true db sch [] s
+    keepsAll (resolveAll true db sch [] s) (resolveAll false db sch [] (stripSel db (aliasesOf s) s))
 
 /-- full statement, decision clause, for the planner as it is (since 0e75382 bare CTE names are not looked at):
 if everything the walker visits is a table of the data integration `i` or a CTE name, and at least one is a
@@ -38,6 +44,10 @@ def C11_decision_full : Prop :=
     (visit .arg q).any (counted true ctes) = true → (∀ it ∈ visit .arg q, itemFine true c ctes i it) →
     i ∉ c.projects → i ≠ n!"files" → i ≠ n!"views" → c.classType i ≠ some n!"api" →
     planTop true names c ctes q = some [.fetch i (strip i names .noFrom .arg q)]
+
+/-- the class the planner deliberately keeps out of the pushdown since a9036e5: a qualified table reference whose last
+part is also a CTE name of the query (cutting the qualifier would turn it into a reference to the CTE) -/
+def captures (ctes : List Name) (q : Node) : Bool := cteCaptures ctes (visit .arg q)
 
 /-- full statement, names clause -/
 def C11_names_full : Prop :=
@@ -53,26 +63,41 @@ under ANY default namespace (before 0e75382 only when the default namespace was 
 theorem C11_decision_cte (skip : Bool) (names : List Name) (c : Catalog) (ctes : List Name) (q : Node) (i : Name)
     (hne : (visit .arg q).any (counted skip ctes) = true)
     (hall : ∀ it ∈ visit .arg q, itemFine skip c ctes i it) (hi : i ∉ c.projects)
-    (hf : i ≠ n!"files") (hv : i ≠ n!"views") (hapi : c.classType i ≠ some n!"api") :
+    (hf : i ≠ n!"files") (hv : i ≠ n!"views") (hapi : c.classType i ≠ some n!"api")
+    (hcap : captures ctes q = false) :
     planTop skip names c ctes q = some [.fetch i (strip i names .noFrom .arg q)] := by
-  simp [planTop, checkSingle_of_fine skip c ctes i _ hne hall hi hf hv hapi]
+  simp [planTop, checkSingle_of_fine skip c ctes i _ hne hall hi hf hv hapi hcap]
 
-/-- T11.3 (main, full decision clause) -/
-theorem C11_decision : C11_decision_full :=
-  fun names c ctes q i hne hall hi hf hv hapi => C11_decision_cte true names c ctes q i hne hall hi hf hv hapi
+/-- T11.3 (main): the decision clause outside the capture class -/
+theorem C11_partial_decision (names : List Name) (c : Catalog) (ctes : List Name) (q : Node) (i : Name)
+    (hne : (visit .arg q).any (counted true ctes) = true) (hall : ∀ it ∈ visit .arg q, itemFine true c ctes i it)
+    (hi : i ∉ c.projects) (hf : i ≠ n!"files") (hv : i ≠ n!"views") (hapi : c.classType i ≠ some n!"api")
+    (hcap : captures ctes q = false) :
+    planTop true names c ctes q = some [.fetch i (strip i names .noFrom .arg q)] :=
+  C11_decision_cte true names c ctes q i hne hall hi hf hv hapi hcap
+
+/-- `WITH t AS (SELECT * FROM int1.s) SELECT * FROM t JOIN int1.t AS u …`: everything is in `int1`, yet the query is
+not pushed down whole — the planner declines because `int1.t`, once cut to `t`, would be read as the CTE (a9036e5);
+the full decision clause is therefore false, by design -/
+theorem C11_witness_2 :
+    checkSingle true (mkCatalog ⟨some [.nm n!"int1", .nm n!"int2"], none, .none, some n!"mindsdb"⟩) [n!"t"]
+      [.table [n!"int1", n!"s"], .table [n!"t"], .table [n!"int1", n!"t"]] = none ∧
+    checkSingle true (mkCatalog ⟨some [.nm n!"int1", .nm n!"int2"], none, .none, some n!"mindsdb"⟩) [n!"c"]
+      [.table [n!"int1", n!"s"], .table [n!"c"], .table [n!"int1", n!"t"]] = some n!"int1" := by decide
 
 /-- T11.3 as it was before 0e75382 (no CTE references among the visited items) -/
 theorem C11_decision_before_0e75382 (names : List Name) (c : Catalog) (ctes : List Name) (q : Node) (i : Name)
     (hne : visit .arg q ≠ []) (hall : allResolveTo c i (visit .arg q)) (hi : i ∉ c.projects)
-    (hf : i ≠ n!"files") (hv : i ≠ n!"views") (hapi : c.classType i ≠ some n!"api") :
+    (hf : i ≠ n!"files") (hv : i ≠ n!"views") (hapi : c.classType i ≠ some n!"api")
+    (hcap : captures ctes q = false) :
     planTop false names c ctes q = some [.fetch i (strip i names .noFrom .arg q)] := by
-  simp [planTop, checkSingle_of_single c ctes i _ hne hall hi hf hv hapi]
+  simp [planTop, checkSingle_of_single c ctes i _ hne hall hi hf hv hapi hcap]
 
 /-- T11.3, converse: a pushdown happens only for such queries, and yields exactly one fetch step -/
 theorem C11_decision_sound (skip : Bool) (names : List Name) (c : Catalog) (ctes : List Name) (q : Node)
     (steps : List Step) (h : planTop skip names c ctes q = some steps) :
     ∃ i, steps = [.fetch i (strip i names .noFrom .arg q)] ∧ (∀ it ∈ visit .arg q, pushedOk skip c ctes i it) ∧
-      i ≠ n!"files" ∧ i ≠ n!"views" ∧ c.classType i ≠ some n!"api" := by
+      i ≠ n!"files" ∧ i ≠ n!"views" ∧ c.classType i ≠ some n!"api" ∧ captures ctes q = false := by
   unfold planTop at h
   cases hc : checkSingle skip c ctes (visit .arg q) with
   | none => simp [hc] at h
@@ -83,11 +108,24 @@ theorem C11_decision_sound (skip : Bool) (names : List Name) (c : Catalog) (ctes
 /-- T11.2 -/
 theorem C11_names : C11_names_full := outName_stripIdent
 
-/-- T11.1, for the cut as it is (`names = []`) and for the alias-aware cut of fixes/C11_2.diff: every column
-reference of the stripped query denotes on the integration's own catalog what it denoted on the federated one,
-for all queries of the fragment (any nesting) with `[db.]t` table references in which a two-part column
-reference is qualified by the integration name only if the cut leaves it alone (`db ∈ names`) -/
-theorem C11_partial_resolution (db : Name) (names : List Name) (sch : Schema) (s : Sel)
+/-- T11.1 (main, full resolution clause) -/
+theorem C11_resolution : C11_resolution_full :=
+  fun db sch s => resolveAll_keeps db (aliasesOf s) sch s [] (by intro sc h; simp at h) (fun _ h => h)
+
+/-- the same when the planner hands more names to the cut (it also adds the names of CTEs nobody refers to) -/
+theorem C11_resolution_names (db : Name) (names : List Name) (sch : Schema) (s : Sel)
+    (h : ∀ n ∈ aliasesOf s, n ∈ names) :
+    keepsAll (resolveAll true db sch [] s) (resolveAll false db sch [] (stripSel db names s)) :=
+  resolveAll_keeps db names sch s [] (by intro sc h; simp at h) h
+
+/-- what is proved of `C11_full`: the names and resolution clauses outright, the decision clause outside the
+capture class (`C11_partial_decision`, `C11_witness_2`) -/
+theorem C11_main : C11_names_full ∧ C11_resolution_full := ⟨C11_names, C11_resolution⟩
+
+/-- T11.1 in the exact form (also references that denote nothing stay that way), for every `names` — the cut
+before 1ea1207 is `names = []` —: under `okSel db names` (table references `[db.]t`; a two-part column reference is
+qualified by the integration name only if the cut leaves it alone) the two result lists are EQUAL -/
+theorem C11_resolution_exact (db : Name) (names : List Name) (sch : Schema) (s : Sel)
     (h : okSel db names s = true) :
     resolveAll false db sch [] (stripSel db names s) = resolveAll true db sch [] s :=
   resolveAll_strip db names sch s [] (by intro sc hsc; simp at hsc) h
@@ -99,11 +137,11 @@ def sch1 : Schema := fun _ t =>
 /-- `select int1.x, s.y from int1.t as int1 join int1.s as s on int1.id = s.id` -/
 def aliasQuery : Sel :=
   .mk [⟨[n!"int1", n!"t"], some n!"int1"⟩, ⟨[n!"int1", n!"s"], some n!"s"⟩]
-      [[n!"int1", n!"x"], [n!"s", n!"y"], [n!"int1", n!"id"], [n!"s", n!"id"]] .nil
+      [[n!"int1", n!"x"], [n!"s", n!"y"], [n!"int1", n!"id"], [n!"s", n!"id"]] .nil .nil
 
 /-- regression (before 1ea1207 the cut ignored aliases, `names = []`): the alias equals the integration name,
 `int1.id` was cut to `id`, which is ambiguous on `int1`; with the aliases handed to the cut the query keeps its meaning
-and lies inside `C11_partial_resolution` -/
+and lies inside `C11_resolution_exact` -/
 theorem C11_regression_1 :
     resolveAll true n!"int1" sch1 [] aliasQuery =
       [.ok 0 0 n!"t" n!"x", .ok 0 1 n!"s" n!"y", .ok 0 0 n!"t" n!"id", .ok 0 1 n!"s" n!"id"] ∧
@@ -120,19 +158,27 @@ def sch2 : Schema := fun _ t =>
 
 /-- `select int1.id from int1.int1 join int1.s on …`: an UNALIASED table whose own name is the integration name -/
 def tableNamedLikeDb : Sel :=
-  .mk [⟨[n!"int1", n!"int1"], none⟩, ⟨[n!"int1", n!"s"], none⟩] [[n!"int1", n!"id"]] .nil
+  .mk [⟨[n!"int1", n!"int1"], none⟩, ⟨[n!"int1", n!"s"], none⟩] [[n!"int1", n!"id"]] .nil .nil
 
-/-- the class still excluded from `C11_partial_resolution` is inhabited: table names are not among the `names`
-handed to the cut, so `int1.id` (column of table `int1`) is cut to `id`, ambiguous on the integration -/
-theorem C11_witness_1 :
+/-- regression (before bd15793 the own names of unaliased tables were not among the `names`; here there is no
+alias, so `names` was `[]`): `int1.id` (column of table `int1`) was cut to `id`, ambiguous on the integration; now it
+keeps its meaning -/
+theorem C11_regression_3 :
     resolveAll true n!"int1" sch2 [] tableNamedLikeDb = [.ok 0 0 n!"int1" n!"id"] ∧
-    resolveAll false n!"int1" sch2 [] (stripSel n!"int1" (aliasesOf tableNamedLikeDb) tableNamedLikeDb) = [.ambiguous] ∧
-    okSel n!"int1" (aliasesOf tableNamedLikeDb) tableNamedLikeDb = false := by decide
+    resolveAll false n!"int1" sch2 [] (stripSel n!"int1" [] tableNamedLikeDb) = [.ambiguous] ∧
+    aliasesOf tableNamedLikeDb = [n!"int1", n!"s"] ∧
+    resolveAll false n!"int1" sch2 [] (stripSel n!"int1" (aliasesOf tableNamedLikeDb) tableNamedLikeDb) =
+      [.ok 0 0 n!"int1" n!"id"] := by decide
 
-theorem C11_resolution_full_false : ¬ C11_resolution_full := fun h => by
-  have := h n!"int1" sch2 tableNamedLikeDb
-  rw [C11_witness_1.1, C11_witness_1.2.1] at this
-  exact absurd this (by decide)
+/-- `select int1.x from int1.t` — nothing is called `int1`, the reference denotes nothing in the original, but after
+the cut it denotes `t.x`: `keeps` cannot be strengthened to equality of the result lists without a hypothesis -/
+def danglingQuery : Sel := .mk [⟨[n!"int1", n!"t"], none⟩] [[n!"int1", n!"x"]] .nil .nil
+
+theorem C11_exactness_needs_hypothesis :
+    resolveAll true n!"int1" sch1 [] danglingQuery = [.notFound] ∧
+    resolveAll false n!"int1" sch1 [] (stripSel n!"int1" (aliasesOf danglingQuery) danglingQuery) =
+      [.ok 0 0 n!"t" n!"x"] ∧
+    okSel n!"int1" (aliasesOf danglingQuery) danglingQuery = false := by decide
 
 /-- regression (before 0e75382): `WITH cte1 AS (SELECT x FROM int1.t) SELECT * FROM cte1` with
 `default_namespace='proj'` (not a project) — the reference to the CTE counted as a second integration and the query was
@@ -147,15 +193,21 @@ theorem C11_regression_2 :
 
 /-! non-vacuity: a nested, aliased, three-part-qualified query satisfies `okSel` and is not trivial -/
 
-/-- `select int1.t.x, a.y, (select max(INT1.t.x) from int1.s where s.id = a.id) from int1.t join int1.s as a` -/
+/-- `with c as (select int1.x, int1.t.id from INT1.t as int1)
+    select int1.t.x, a.y, (select max(INT1.t.x) from int1.s where s.id = a.id) from int1.t join int1.s as a` -/
 def goodQuery : Sel :=
   .mk [⟨[n!"int1", n!"t"], none⟩, ⟨[n!"int1", n!"s"], some n!"a"⟩]
       [[n!"int1", n!"t", n!"x"], [n!"a", n!"y"]]
-      (.cons (.mk [⟨[n!"int1", n!"s"], none⟩] [[n!"INT1", n!"t", n!"x"], [n!"s", n!"id"], [n!"a", n!"id"]] .nil) .nil)
+      (.cons (.mk [⟨[n!"int1", n!"s"], none⟩] [[n!"INT1", n!"t", n!"x"], [n!"s", n!"id"], [n!"a", n!"id"]] .nil .nil) .nil)
+      (.cons (.mk [⟨[n!"INT1", n!"t"], some n!"int1"⟩] [[n!"int1", n!"x"], [n!"int1", n!"t", n!"id"]] .nil .nil) .nil)
 
 example : okSel n!"int1" (aliasesOf goodQuery) goodQuery = true := by decide
+example : resolveAll false n!"int1" sch1 [] (stripSel n!"int1" (aliasesOf goodQuery) goodQuery) =
+    resolveAll true n!"int1" sch1 [] goodQuery := by decide
+example : aliasesOf goodQuery = [n!"t", n!"a", n!"s", n!"int1"] := by decide
 example : resolveAll true n!"int1" sch1 [] goodQuery =
-    [.ok 0 0 n!"t" n!"x", .ok 0 1 n!"s" n!"y", .ok 1 0 n!"t" n!"x", .ok 0 0 n!"s" n!"id", .ok 1 1 n!"s" n!"id"] := by
+    [.ok 0 0 n!"t" n!"x", .notFound,
+     .ok 0 0 n!"t" n!"x", .ok 0 1 n!"s" n!"y", .ok 1 0 n!"t" n!"x", .ok 0 0 n!"s" n!"id", .ok 1 1 n!"s" n!"id"] := by
   decide
 
 /-- non-vacuity of the decision theorem -/
